@@ -167,13 +167,15 @@ def ledgers(draw, max_txns=10, with_pad=True, with_extras=True, min_txns=1, many
                                    'amount': (draw(money(50, 60000)), 'USD'), 'meta': draw(metas(1))})
             elif ekind == 'note':
                 directives.append({'kind': 'note', 'date': edate, 'account': draw(st.sampled_from(usable)),
-                                   'comment': draw(st.sampled_from(['called', 'a note', 'x'])), 'meta': draw(metas(1))})
+                                   'comment': draw(st.sampled_from(['called', 'a note', 'x'])), 'meta': draw(metas(1)),
+                                   'tags': sorted(draw(st.sets(st.sampled_from(['trip', 'food']), max_size=1)))})
             elif ekind == 'event':
                 directives.append({'kind': 'event', 'date': edate, 'type': draw(st.sampled_from(['location', 'job'])),
                                    'description': draw(st.sampled_from(['Paris', 'NYC', 'Acme']))})
             elif ekind == 'document':
                 directives.append({'kind': 'document', 'date': edate, 'account': draw(st.sampled_from(usable)),
-                                   'filename': '/etc/hostname'})
+                                   'filename': '/etc/hostname',
+                                   'tags': sorted(draw(st.sets(st.sampled_from(['trip', 'work']), max_size=1)))})
             elif ekind == 'query':
                 directives.append({'kind': 'query', 'date': edate, 'name': f'q{i}',
                                    'text': draw(st.sampled_from(['SELECT account, sum(position) GROUP BY 1',
@@ -285,12 +287,12 @@ def render(desc):
             out.append(f'{date} price {d["currency"]} {_num(d["amount"][0])} {d["amount"][1]}')
             out += _meta_lines(d.get('meta'), '  ')
         elif k == 'note':
-            out.append(f'{date} note {d["account"]} "{d["comment"]}"')
+            out.append(f'{date} note {d["account"]} "{d["comment"]}"' + ''.join(f' #{t}' for t in d.get('tags', ())))
             out += _meta_lines(d.get('meta'), '  ')
         elif k == 'event':
             out.append(f'{date} event "{d["type"]}" "{d["description"]}"')
         elif k == 'document':
-            out.append(f'{date} document {d["account"]} "{d["filename"]}"')
+            out.append(f'{date} document {d["account"]} "{d["filename"]}"' + ''.join(f' #{t}' for t in d.get('tags', ())))
         elif k == 'query':
             out.append(f'{date} query "{d["name"]}" "{d["text"]}"')
         elif k == 'custom':
